@@ -229,6 +229,8 @@ val nat_of_ascii : char -> nat
 
 val eqb0 : char list -> char list -> bool
 
+val append : char list -> char list -> char list
+
 type exn =
 | ValueError
 | IndexError
@@ -398,6 +400,10 @@ val cell_uint64 : cell -> bool
 
 val is_num_or_none : cell -> bool
 
+val out_int64 : cell -> bool
+
+val is_per_any : cell -> bool
+
 val is_str_or_none : cell -> bool
 
 val to_float_cell : cell -> cell
@@ -436,6 +442,8 @@ type 'a tres =
 val tbind : 'a1 tres -> ('a1 -> 'a2 tres) -> 'a2 tres
 
 val model_to_table : bool -> bool -> bool -> fmodel -> table tres
+
+val container_to_table : span -> (char list * series) list -> table tres
 
 type flinker = { lname : cell; lmodel : fmodel; lsubs : (cell * fmodel) list }
 
@@ -481,9 +489,7 @@ val cell_of_ostr : char list option -> cell
 
 val all_some : 'a1 option list -> 'a1 list option
 
-val cell_of_oidx : bool -> pidx option -> cell option
-
-val is_None : 'a1 option -> bool
+val cell_of_oidx : pidx option -> cell option
 
 val idx_cells : pidx option list -> cell list option
 
